@@ -18,4 +18,30 @@ ShapesD == {<<0, 1, 0>>, <<1, 1, 0>>}
 OptsCat1 == {<<0, TRUE, FALSE>>, <<1, TRUE, FALSE>>, <<1, TRUE, TRUE>>, <<1, FALSE, FALSE>>, <<0, FALSE, TRUE>>}
 OptsFour == {<<0, TRUE, FALSE>>, <<1, TRUE, FALSE>>, <<1, TRUE, TRUE>>}
 OptsCat2 == {<<2, TRUE, FALSE>>, <<2, TRUE, TRUE>>, <<1, TRUE, FALSE>>, <<2, FALSE, FALSE>>}
+
+(* ---- weighted descriptor -m k:w ----------------------------------------------------------------------- *)
+(* complete shapes <<count, mt, mv, merged_k, w, wt, merged_k:w>> (maps = weights of NA, x, y; w = -1: no w) *)
+Z3 == <<0, 0, 0>>
+EmptySet == {}
+(* records that no pass has merged yet: k absent / x / y, w absent / 0 / 2 / 3, count 1 / 2 *)
+WRaw == {<<1, "none", "", Z3, -1, "none", Z3>>,  <<1, "none", "", Z3, 2, "none", Z3>>,
+         <<1, "val", "x", Z3, -1, "none", Z3>>,  <<1, "val", "x", Z3, 2, "none", Z3>>,
+         <<1, "val", "x", Z3, 3, "none", Z3>>,   <<2, "val", "y", Z3, 3, "none", Z3>>,
+         <<1, "val", "y", Z3, 0, "none", Z3>>,   <<2, "val", "x", Z3, 2, "none", Z3>>}
+(* records written by an earlier pass: *)
+WMerged == {<<1, "val", "x", Z3, 2, "map", <<0, 2, 0>>>>,             \* -m k:w, a class of one record: k and w are still there
+            <<2, "none", "", Z3, -1, "map", <<0, 2, 3>>>>,            \* -m k:w, a class of two: k and w differed and are gone
+            <<3, "none", "", Z3, 2, "map", <<1, 4, 0>>>>,             \* -m k:w, a class of three with the same w
+            <<2, "map", "", <<0, 1, 1>>, -1, "none", Z3>>,            \* -m k only
+            <<2, "map", "", <<0, 1, 1>>, -1, "map", <<0, 2, 3>>>>,    \* -m k -m k:w
+            <<1, "both", "x", <<0, 1, 0>>, 2, "map", <<0, 2, 0>>>>,   \* -m k -m k:w, a class of one record
+            <<1, "both", "y", <<0, 0, 1>>, 3, "none", Z3>>}           \* -m k only, a class of one record that has a w
+WFull == WRaw \cup WMerged
+WSmall == {<<1, "val", "x", Z3, 2, "none", Z3>>, <<2, "val", "y", Z3, 3, "none", Z3>>, <<1, "none", "", Z3, -1, "none", Z3>>,
+           <<2, "none", "", Z3, -1, "map", <<0, 2, 3>>>>, <<1, "both", "x", <<0, 1, 0>>, 2, "map", <<0, 2, 0>>>>,
+           <<2, "map", "", <<0, 1, 1>>, -1, "none", Z3>>}
+(* <<requested categories, -m k, --no-singleton, -m k:w>> *)
+OptsW0 == {<<0, FALSE, FALSE, TRUE>>, <<0, TRUE, FALSE, TRUE>>, <<0, TRUE, TRUE, TRUE>>}
+OptsW1 == {<<1, FALSE, FALSE, TRUE>>, <<1, TRUE, FALSE, TRUE>>, <<1, FALSE, TRUE, TRUE>>, <<0, TRUE, FALSE, TRUE>>}
+OptsWT == {<<1, FALSE, FALSE, TRUE>>, <<1, TRUE, FALSE, TRUE>>, <<1, TRUE, TRUE, TRUE>>, <<0, FALSE, TRUE, TRUE>>, <<0, TRUE, FALSE, TRUE>>}
 =============================================================================
